@@ -247,6 +247,8 @@ func (r *rewriter) instrumentAccesses() {
 		name  string
 	}
 	marks := map[ast.Expr]repl{}
+	appendCalls := map[*ast.CallExpr]string{}
+	sliceArgs := map[ast.Expr]string{}
 	var stack []ast.Node
 	ast.Inspect(r.file, func(n ast.Node) bool {
 		if n == nil {
@@ -254,6 +256,9 @@ func (r *rewriter) instrumentAccesses() {
 			return true
 		}
 		stack = append(stack, n)
+		if ce, ok := n.(*ast.CallExpr); ok {
+			r.noteSliceCall(ce, stack, appendCalls, sliceArgs)
+		}
 		var e ast.Expr
 		var name string
 		switch x := n.(type) {
@@ -392,13 +397,29 @@ func (r *rewriter) instrumentAccesses() {
 		marks[e] = repl{write, name}
 		return true
 	})
-	if len(marks) == 0 {
+	if len(marks) == 0 && len(appendCalls) == 0 && len(sliceArgs) == 0 {
 		return
 	}
 	astutil.Apply(r.file, nil, func(c *astutil.Cursor) bool {
 		e, ok := c.Node().(ast.Expr)
 		if !ok {
 			return true
+		}
+		if ce, isCall := e.(*ast.CallExpr); isCall {
+			if name, ok := appendCalls[ce]; ok {
+				// append(s, v...) => verifrt.Append(s, "name", v...)
+				ce.Fun = rt("Append")
+				ce.Args = append([]ast.Expr{ce.Args[0], &ast.BasicLit{Kind: token.STRING, Value: strconv.Quote(name)}}, ce.Args[1:]...)
+				r.changed, r.needRT = true, true
+			}
+			return true
+		}
+		if name, ok := sliceArgs[e]; ok {
+			if _, marked := marks[e]; !marked {
+				c.Replace(call(rt("RdSlice"), e, &ast.BasicLit{Kind: token.STRING, Value: strconv.Quote(name)}))
+				r.changed, r.needRT = true, true
+				return true
+			}
 		}
 		m, ok := marks[e]
 		if !ok {
@@ -408,10 +429,102 @@ func (r *rewriter) instrumentAccesses() {
 		if m.write {
 			fn = "Wr"
 		}
-		c.Replace(&ast.StarExpr{X: call(rt(fn), &ast.UnaryExpr{Op: token.AND, X: e}, &ast.BasicLit{Kind: token.STRING, Value: strconv.Quote(m.name)})})
+		var repl ast.Expr = &ast.StarExpr{X: call(rt(fn), &ast.UnaryExpr{Op: token.AND, X: e}, &ast.BasicLit{Kind: token.STRING, Value: strconv.Quote(m.name)})}
+		if name, ok := sliceArgs[e]; ok {
+			repl = call(rt("RdSlice"), repl, &ast.BasicLit{Kind: token.STRING, Value: strconv.Quote(name)})
+		}
+		c.Replace(repl)
 		r.changed, r.needRT = true, true
 		return true
 	})
+}
+
+// elementReaders are standard-library packages whose functions read the
+// elements of the slices they are given.
+var elementReaders = map[string]bool{"strings": true, "bytes": true, "sort": true, "slices": true, "fmt": true}
+
+// sliceName names the backing array an expression refers to (for reports).
+func (r *rewriter) sliceName(e ast.Expr, stack []ast.Node) string {
+	for {
+		switch x := e.(type) {
+		case *ast.ParenExpr:
+			e = x.X
+			continue
+		case *ast.SliceExpr:
+			e = x.X
+			continue
+		case *ast.SelectorExpr:
+			if sel := r.info.Selections[x]; sel != nil && sel.Kind() == types.FieldVal {
+				recv := sel.Recv()
+				if p, ok := recv.(*types.Pointer); ok {
+					recv = p.Elem()
+				}
+				if nt, ok := recv.(*types.Named); ok {
+					return nt.Obj().Name() + "." + x.Sel.Name + "[]"
+				}
+			}
+			return x.Sel.Name + "[]"
+		case *ast.Ident:
+			fn := "func"
+			for i := len(stack) - 1; i >= 0; i-- {
+				if fd, ok := stack[i].(*ast.FuncDecl); ok {
+					fn = fd.Name.Name
+					break
+				}
+			}
+			return fn + "." + x.Name + "[]"
+		}
+		return "slice[]"
+	}
+}
+
+// noteSliceCall records append calls and slice arguments of element-reading
+// library calls: element accesses that go through a copied slice header are
+// invisible to the field/variable instrumentation (a header copied under a
+// lock and used after the unlock still shares its backing array).
+func (r *rewriter) noteSliceCall(ce *ast.CallExpr, stack []ast.Node, appendCalls map[*ast.CallExpr]string, sliceArgs map[ast.Expr]string) {
+	leafElem := func(e ast.Expr) bool {
+		t := r.info.TypeOf(e)
+		if t == nil {
+			return false
+		}
+		sl, ok := t.Underlying().(*types.Slice)
+		if !ok {
+			return false
+		}
+		_, isIface := sl.Elem().Underlying().(*types.Interface)
+		return leafType(sl.Elem()) && !isIface
+	}
+	if isBuiltin(r.info, ce.Fun, "append") && len(ce.Args) >= 1 && leafElem(ce.Args[0]) {
+		if ce.Ellipsis.IsValid() && len(ce.Args) == 2 {
+			// append([]byte, string...) has no generic equivalent
+			if b, ok := r.info.TypeOf(ce.Args[1]).Underlying().(*types.Basic); ok && b.Info()&types.IsString != 0 {
+				return
+			}
+		}
+		appendCalls[ce] = r.sliceName(ce.Args[0], stack)
+		return
+	}
+	sel, ok := ce.Fun.(*ast.SelectorExpr)
+	if !ok {
+		return
+	}
+	id, ok := sel.X.(*ast.Ident)
+	if !ok {
+		return
+	}
+	pn, ok := r.info.Uses[id].(*types.PkgName)
+	if !ok || !elementReaders[pn.Imported().Path()] {
+		return
+	}
+	for _, a := range ce.Args {
+		if leafElem(a) {
+			switch a.(type) {
+			case *ast.Ident, *ast.SelectorExpr, *ast.SliceExpr:
+				sliceArgs[a] = r.sliceName(a, stack)
+			}
+		}
+	}
 }
 
 var (
